@@ -640,3 +640,71 @@ contract(F + "Continuum.__getitem__#annotator",
                   cl("members(result) == Us(self)[keys] and size(result) == Cnt(self)[keys] and seqof(result) == Useq(self)[keys]",
                      "C13 C19", name="the-annotator's-units-in-order")],
          serves={"C13", "C14", "C19"})
+
+# =========================================================================================================
+# Continuum.__eq__ / __ne__   (C13: equality of continua is an equivalence on (annotators, units))
+# The characterisation  result == (same annotators and same units)  needs the CANONICAL ENUMERATION lemmas: two well-formed sorted
+# containers with the same members enumerate them identically (same length, same element at every position).
+# =========================================================================================================
+EQV = ("(forall([(a, Real)], Ann(self)[a] == Ann(other)[a]) and forall([(a, Real), (u, Unit)], Us(self)[a][u] == Us(other)[a][u]))")
+EQ_HYPS = ["wfmap(self)", "wfmap(other)", "forall([(a, Real)], Ann(self)[a] == Ann(other)[a])",
+           "forall([(a, Real), (u, Unit)], Us(self)[a][u] == Us(other)[a][u])"]
+EQ_LEMMAS = [
+    Lemma("kseq_prefix", "forall(i, 0, k, Kseq(self)[i] == Kseq(other)[i])", binders=[("k", "Int")],
+          hyps=EQ_HYPS + ["0 <= k", "k <= Nkeys(self)", "k <= Nkeys(other)"], method=("induction", "k", "0")),
+    Lemma("nkeys_equal", "Nkeys(self) == Nkeys(other)", hyps=EQ_HYPS,
+          hints=["implies(Nkeys(self) <= Nkeys(other), forall(i, 0, Nkeys(self), Kseq(self)[i] == Kseq(other)[i]))",
+                 "implies(Nkeys(other) <= Nkeys(self), forall(i, 0, Nkeys(other), Kseq(self)[i] == Kseq(other)[i]))",
+                 "not Nkeys(self) < Nkeys(other)", "not Nkeys(other) < Nkeys(self)"]),
+    Lemma("kseq_equal", "forall(i, 0, Nkeys(self), Kseq(self)[i] == Kseq(other)[i]) and forall([(a, Real)], implies(Ann(self)[a], "
+                        "Kidx(self)[a] == Kidx(other)[a]))", hyps=EQ_HYPS,
+          hints=["Nkeys(self) == Nkeys(other)", "forall(i, 0, Nkeys(self), Kseq(self)[i] == Kseq(other)[i])"]),
+    Lemma("useq_prefix", "forall(j, 0, k, Useq(self)[a][j] == Useq(other)[a][j])", binders=[("a", "Real"), ("k", "Int")],
+          hyps=EQ_HYPS + ["Ann(self)[a]", "0 <= k", "k <= Cnt(self)[a]", "k <= Cnt(other)[a]"], method=("induction", "k", "0")),
+    Lemma("cnt_equal", "Cnt(self)[a] == Cnt(other)[a]", binders=[("a", "Real")], hyps=EQ_HYPS + ["Ann(self)[a]"],
+          hints=["implies(Cnt(self)[a] <= Cnt(other)[a], forall(j, 0, Cnt(self)[a], Useq(self)[a][j] == Useq(other)[a][j]))",
+                 "implies(Cnt(other)[a] <= Cnt(self)[a], forall(j, 0, Cnt(other)[a], Useq(self)[a][j] == Useq(other)[a][j]))",
+                 "implies(Cnt(self)[a] < Cnt(other)[a], Us(self)[a][Useq(other)[a][Cnt(self)[a]]] and "
+                 "Uidx(self)[a][Useq(other)[a][Cnt(self)[a]]] < Cnt(self)[a] and "
+                 "Useq(other)[a][Uidx(self)[a][Useq(other)[a][Cnt(self)[a]]]] == Useq(other)[a][Cnt(self)[a]])",
+                 "not Cnt(self)[a] < Cnt(other)[a]",
+                 "implies(Cnt(other)[a] < Cnt(self)[a], Us(other)[a][Useq(self)[a][Cnt(other)[a]]] and "
+                 "Uidx(other)[a][Useq(self)[a][Cnt(other)[a]]] < Cnt(other)[a] and "
+                 "Useq(self)[a][Uidx(other)[a][Useq(self)[a][Cnt(other)[a]]]] == Useq(self)[a][Cnt(other)[a]])",
+                 "not Cnt(other)[a] < Cnt(self)[a]"]),
+    Lemma("useq_equal", "forall(j, 0, Cnt(self)[a], Useq(self)[a][j] == Useq(other)[a][j]) and "
+                        "forall([(u, Unit)], implies(Us(self)[a][u], Uidx(self)[a][u] == Uidx(other)[a][u]))",
+          binders=[("a", "Real")], hyps=EQ_HYPS + ["Ann(self)[a]"],
+          hints=["Cnt(self)[a] == Cnt(other)[a]", "forall(j, 0, Cnt(self)[a], Useq(self)[a][j] == Useq(other)[a][j])"]),
+    Lemma("offs_equal", "offs(self, k) == offs(other, k)", binders=[("k", "Int")], hyps=EQ_HYPS + ["0 <= k", "k <= Nkeys(self)"],
+          method=("induction", "k", "0")),
+    Lemma("flat_equal", "flat(self, a, u) == flat(other, a, u)", binders=[("a", "Real"), ("u", "Unit")], hyps=EQ_HYPS + ["Us(self)[a][u]"],
+          hints=["Ann(self)[a]", "Kidx(self)[a] == Kidx(other)[a]", "Uidx(self)[a][u] == Uidx(other)[a][u]",
+                 "0 <= Kidx(self)[a] and Kidx(self)[a] <= Nkeys(self)", "use offs_equal(k=Kidx(self)[a])",
+                 "offs(self, Kidx(self)[a]) == offs(other, Kidx(self)[a])"]),
+    Lemma("numunits_equal", "NumUnits(self) == NumUnits(other)", hyps=EQ_HYPS,
+          hints=["Nkeys(self) == Nkeys(other)", "use offs_equal(k=Nkeys(self))", "offs(self, Nkeys(self)) == offs(other, Nkeys(self))"]),
+]
+
+contract(F + "Continuum.__eq__",
+         params={"self": CONT(), "other": CONT()}, returns=BoolT(), modifies=[], macros=ITER_MACROS, lemmas=EQ_LEMMAS,
+         requires=["RI(self)", "RI(other)"],
+         ensures=[cl("result == " + EQV, "C13", name="equal-iff-same-annotators-and-same-units")],
+         loops={"L0": dict(match="for (my_annotator, my_unit), (other_annotator, other_unit) in zip(self, other)", index="kz",
+                           seq_name=["YS", "YO"],
+                           inv=["forall(k, 0, kz, YS[k][0] == YO[k][0] and YS[k][1] == YO[k][1])"])},
+         hooks=[("before", "if self.annotators != other.annotators: ...", "model_inv wfmap(self)"),
+                ("before", "if self.annotators != other.annotators: ...", "model_inv wfmap(other)"),
+                # every unit sits at its flat position in the iteration, on both sides
+                ("before", "return True", "assert forall([(a, Real), (u, Unit)], implies(Us(self)[a][u], 0 <= flat(self, a, u) and "
+                                          "flat(self, a, u) < NumUnits(self) and YS[flat(self, a, u)][0] == a and YS[flat(self, a, u)][1] == u))"),
+                ("before", "return True", "assert forall([(a, Real), (u, Unit)], implies(Us(other)[a][u], 0 <= flat(other, a, u) and "
+                                          "flat(other, a, u) < NumUnits(other) and YO[flat(other, a, u)][0] == a and YO[flat(other, a, u)][1] == u))"),
+                ("before", "return True", "assert forall([(a, Real), (u, Unit)], implies(Us(self)[a][u], Us(other)[a][u]))"),
+                ("before", "return True", "assert forall([(a, Real), (u, Unit)], implies(Us(other)[a][u], Us(self)[a][u]))")],
+         serves={"C13"})
+
+contract(F + "Continuum.__ne__", params={"self": CONT(), "other": CONT()}, returns=BoolT(), modifies=[], macros=ITER_MACROS,
+         requires=["RI(self)", "RI(other)"],
+         ensures=[cl("result == (not " + EQV + ")", "C13", name="unequal-iff-annotators-or-units-differ")],
+         serves={"C13"})
